@@ -272,6 +272,12 @@ func (u *unmGen) tagFor(t reflect.Type) string {
 	switch {
 	case r.Chance(1, 80):
 		return "///" // does not compile
+	case (base.Kind() == reflect.Uint64 || base.Kind() == reflect.Uint) && r.Chance(1, 3):
+		// the upper half of the unsigned range: representable, and above every signed integer
+		e = num(pick(r, []string{"9223372036854775808", "9223372036854777856", "18446744073709549568", "13835058055282163712", "9223372036854775807"}))
+	case base.Kind() == reflect.Slice && r.Chance(1, 4):
+		// a bound node-set in the order it was bound (other fields may have filtered it before)
+		e = &EVar{RawQ{Local: pick(r, []string{"u", "w", "u", "v"})}}
 	case base.Kind() == reflect.Slice || base.Kind() == reflect.Struct:
 		e = &EPath{Abs: r.Chance(1, 4), Steps: u.g.Steps(0, 1+r.Intn(2), 0)}
 		if base.Kind() == reflect.Struct && r.Chance(2, 3) {
@@ -283,6 +289,10 @@ func (u *unmGen) tagFor(t reflect.Type) string {
 		case 8:
 			// a bound node-set whose stored order is not document order, used bare
 			e = &EVar{RawQ{Local: pick(r, []string{"u", "u", "w", "v"})}}
+			if r.Chance(1, 2) {
+				// a filter over the binding (which must not reorder what the other fields see)
+				e = &EFilter{E: e, Preds: []Expr{pick(r, []Expr{num("1"), call("last"), num("2")})}}
+			}
 		case 6, 7:
 			// a node-set whose stored order is reverse document order: the conversions use the first node in DOCUMENT order
 			e = &EPath{Steps: []*Stp{{Axis: pick(r, []string{"preceding-sibling", "preceding", "ancestor-or-self", "ancestor"}), Test: NodeTest{Kind: pick(r, []string{"node", "any", "text"})}}}}
@@ -292,7 +302,7 @@ func (u *unmGen) tagFor(t reflect.Type) string {
 		case 0:
 			e = call("count", &EPath{Steps: u.g.Steps(0, 1, 0)})
 		case 1:
-			e = bin(pick(r, []string{"+", "*", "div", "-"}), num(u.g.NumLiteralText()), num(pick(r, []string{"0", "3", "0.5", "1000000", "300", "70000", "5000000000", "20000000000000000000"})))
+			e = bin(pick(r, []string{"+", "*", "div", "-"}), num(u.g.NumLiteralText()), num(pick(r, []string{"0", "3", "0.5", "1000000", "300", "70000", "5000000000", "20000000000000000000", "9223372036854775808", "9223372036854777856", "18446744073709549568", "13835058055282163712"})))
 		case 2:
 			e = call("string-length", call("string"))
 		case 3:
